@@ -1,0 +1,131 @@
+// Copyright 2025 The Go Authors. All rights reserved.
+// Use of this source code is governed by a BSD-style
+// license that can be found in the LICENSE file.
+
+//go:build verif
+
+package webdav
+
+import "time"
+
+// Contracts for the deductive verifier in /verif (govc): property C43, the expiry heap of the
+// in-memory lock system (type byExpiry, the heap.Interface handed to container/heap).
+// This file is compiled only with -tags verif; it adds no behaviour to the package.
+//
+// collectExpiredNodes looks only at the heap top m.byExpiry[0]: that it finds every expired lock
+// rests on (a) container/heap keeping the minimum w.r.t. Less at index 0 (trusted: container/heap is
+// not verified), and (b) Less being the order of the absolute expiry instants, which is what is
+// stated and checked here.
+
+// expBefore: node a expires strictly before node b - time.Time.Before on the expiry fields (trusted
+// `function` contract in /verif/stdlib/webdav_c43.contracts: for representable wall-clock instants,
+// Before(t, u) <==> t.UnixNano() < u.UnixNano()).
+//
+//@ pure
+func expBefore(a, b *memLSNode) bool { return a.expiry.Before(b.expiry) }
+
+var _ = time.Second
+
+// Less is exactly the expiry order: Less(i, j) <==> entry i expires before entry j. Nothing is
+// written.
+//
+//@ func (*byExpiry).Less(b, i, j) (r)
+//@   requires b != nil && 0 <= i && i < len(*b) && 0 <= j && j < len(*b) && (*b)[i] != nil && (*b)[j] != nil
+//@   ensures r <==> expBefore((*b)[i], (*b)[j])
+
+// Len is the number of entries.
+//
+//@ func (*byExpiry).Len(b) (r)
+//@   requires b != nil
+//@   ensures r == len(*b)
+
+// Index bookkeeping. Representation invariant of the heap slice: every entry is a node whose
+// byExpiryIndex field is its position (so the entries are pairwise different nodes); heap.Remove and
+// heap.Fix are called by memLS with n.byExpiryIndex and rely on it. Swap, Push and Pop - the three
+// mutators container/heap calls - keep it; Pop marks the node it hands out with -1 ("not in the heap").
+//
+// Swap exchanges the entries at i and j, fixes their index fields and touches nothing else.
+//
+//@ func (*byExpiry).Swap(b, i, j)
+//@   requires b != nil && 0 <= i && i < len(*b) && 0 <= j && j < len(*b)
+//@   requires forall k int :: 0 <= k && k < len(*b) ==> (*b)[k] != nil && (*b)[k].byExpiryIndex == k
+//@   ensures len(*b) == old(len(*b))
+//@   ensures (*b)[i] == old((*b)[j]) && (*b)[j] == old((*b)[i])
+//@   ensures forall k int :: 0 <= k && k < len(*b) && k != i && k != j ==> (*b)[k] == old((*b)[k])
+//@   ensures forall k int :: 0 <= k && k < len(*b) ==> (*b)[k] != nil && (*b)[k].byExpiryIndex == k
+//@   modifies elems(*b), (*b)[i].byExpiryIndex, (*b)[j].byExpiryIndex
+
+// Push appends the node (a non-nil *memLSNode that is not in the heap yet) and sets its index field
+// to its position; the earlier entries are kept.
+//
+//@ func (*byExpiry).Push(b, x)
+//@   requires b != nil && hastype(x, *memLSNode) && x.(*memLSNode) != nil
+//@   requires forall k int :: 0 <= k && k < len(*b) ==> (*b)[k] != nil && (*b)[k].byExpiryIndex == k && (*b)[k] != x.(*memLSNode)
+//@   ensures len(*b) == old(len(*b)) + 1
+//@   ensures (*b)[len(*b)-1] == x.(*memLSNode)
+//@   ensures forall k int :: 0 <= k && k < old(len(*b)) ==> (*b)[k] == old((*b)[k])
+//@   ensures forall k int :: 0 <= k && k < len(*b) ==> (*b)[k] != nil && (*b)[k].byExpiryIndex == k
+//@   modifies *b, spare(*b), x.(*memLSNode).byExpiryIndex
+//@   allocates
+
+// Pop removes and returns the last entry, marks it as outside the heap (index -1), clears its slot;
+// the other entries are kept.
+//
+//@ func (*byExpiry).Pop(b) (r)
+//@   requires b != nil && len(*b) > 0
+//@   requires forall k int :: 0 <= k && k < len(*b) ==> (*b)[k] != nil && (*b)[k].byExpiryIndex == k
+//@   ensures len(*b) == old(len(*b)) - 1
+//@   ensures hastype(r, *memLSNode) && r.(*memLSNode) == old((*b)[len(*b)-1]) && r.(*memLSNode).byExpiryIndex == -1
+//@   ensures forall k int :: 0 <= k && k < len(*b) ==> (*b)[k] == old((*b)[k])
+//@   ensures forall k int :: 0 <= k && k < len(*b) ==> (*b)[k] != nil && (*b)[k].byExpiryIndex == k
+//@   modifies *b, elems(*b), (*b)[len(*b)-1].byExpiryIndex
+
+// nowBefore: the expiry test of collectExpiredNodes, "now is before the node's expiry" (the lock has
+// not expired yet).
+//
+//@ pure
+func nowBefore(now time.Time, n *memLSNode) bool { return now.Before(n.expiry) }
+
+// collectExpiredNodes, in addition to the call-site discipline stated in verif_dav2.go: when it
+// returns, the heap is empty or its top has not expired (now is before the top's expiry). Together
+// with Less being the expiry order and container/heap keeping the Less-minimum at index 0 (trusted),
+// no entry of the heap has expired.
+//
+//@ extend (*memLS).collectExpiredNodes(m, now)
+//@   ensures len(m.byExpiry) == 0 || nowBefore(now, m.byExpiry[0])
+
+// wallRange: t is a wall-clock instant representable as int64 nanoseconds since 1970 (years
+// 1678..2262) without monotonic clock reading (bit 63 of the unexported field wall) - the domain on
+// which the trusted contract of Before speaks.
+//
+//@ pure
+func wallRange(t time.Time) bool {
+	return (t.Unix() > -9223372037 || (t.Unix() == -9223372037 && t.Nanosecond() >= 145224192)) &&
+		(t.Unix() < 9223372036 || (t.Unix() == 9223372036 && t.Nanosecond() <= 854775807))
+}
+
+// lemmaTopCovers: on wall-clock instants, if the top's expiry is not after another entry's expiry in
+// the sense of Less (the other entry does not expire before the top) and now is before the top's
+// expiry, then now is before the other entry's expiry: an unexpired top means an unexpired heap.
+//
+//@ lemma
+//@ requires wallRange(now) && wallRange(top) && wallRange(other)
+//@ requires now.wall < 1<<63 && top.wall < 1<<63 && other.wall < 1<<63
+//@ ensures ok
+func lemmaTopCovers(now, top, other time.Time) (ok bool) {
+	if now.Before(top) && !other.Before(top) {
+		return now.Before(other)
+	}
+	return true
+}
+
+// lemmaBeforeInstants: on wall-clock instants the order Less is stated in (expBefore, i.e.
+// time.Time.Before on the expiry fields) is the order of the absolute instants in nanoseconds since
+// 1970 - not, e.g., of the relative timeouts details.Duration.
+//
+//@ lemma
+//@ requires wallRange(a) && wallRange(c) && a.wall < 1<<63 && c.wall < 1<<63
+//@ ensures ok
+func lemmaBeforeInstants(a, c time.Time) (ok bool) {
+	return a.Before(c) == (a.UnixNano() < c.UnixNano())
+}
